@@ -9,7 +9,7 @@ HERE = os.path.dirname(os.path.abspath(__file__))
 sys.path.insert(0, HERE)
 
 
-def verify_with_rewrite(key, old, new, repo='/repo', timeout_ms=10000, count=1):
+def verify_with_rewrite(key, old, new, repo=os.environ.get('VERIF_REPO', '/repo'), timeout_ms=10000, count=1):
     from pyvc import runner
     from pyvc.verify import verify_function
     rel = key.split(':')[0]
